@@ -1,5 +1,6 @@
 import VermouthModel.C15
 import VermouthModel.C15_Cli
+import VermouthModel.C15_Name
 open Proto C15
 
 /-
@@ -113,11 +114,14 @@ def encOutcome : Outcome → String
   | .bonds bs => "bonds " ++ encList (bs.map encBond)
 
 /-
-request:  cli <elastic> <go> <toFF> <ef> <el> <eu> <ea> <ep> <em> <ermd> <eb> <eunit> <probes>
+request:  cli <elastic> <go> <toFF> <ef> <el> <eu> <ea> <ep> <em> <ermd> <eb> <eunit> <sep> <molname> <probes>
   the six numbers: [ n d ] or - (option not given); ermd / eb / eunit: string or - ; probes: [ resid ... ]
 response: usage | noelastic | errint | errfaulty |
           proc merge=<0|1> sel=<default|list> <names> <lower> <upper> <a> <p> <base> <minf> <rmd|-> dom=<0|1|2> <table>
+          then=<run_system calls of the block in order: merge | network | name:<dedup>:<molname>, comma separated>
   table: for a region criterion its value on every ordered pair of probe residues
+request:  typesafter <dedup> [ [ nAtoms [ [ a b rest ] ... ] [ [ a b rest ] ... ] ] ... ]   (per molecule: bonds before, network)
+response: [ type id ... ]
 -/
 def optRatOf (t : Tok) : Option (Option Rat) :=
   match t with
@@ -153,6 +157,27 @@ def encCli (probes : List Int) : CliResult → String
       " ".intercalate ["proc", "merge=" ++ encBool m, "sel=" ++ (if d then "default" else "list"),
         encList (p.names.map encStr), encRat p.lower, encRat p.upper, encRat p.decayFactor, encRat p.decayPower,
         encRat p.base, encRat p.minForce, encOptInt p.resMinDist, "dom=" ++ kind, encList table]
+
+def encEvent : CliEvent → String
+  | .mergeAll => "merge"
+  | .network _ => "network"
+  | .nameTypes d n => "name:" ++ encBool d ++ ":" ++ encStr (String.ofList n)
+
+def interOf (t : Tok) : Option C03.Inter := do
+  match ← t.list? with
+  | [a, b, r] => pure { atoms := [← a.int?, ← b.int?], rest := ← r.str? }
+  | _ => none
+
+def molNetOf (t : Tok) : Option (C03.Mol × List C03.Inter) := do
+  match ← t.list? with
+  | [n, prior, net] =>
+      let pr ← (← prior.list?).mapM interOf
+      let m : C03.Mol :=
+        { nrexcl := some 1, ff := some 0, metadata := [],
+          nodes := (List.range (← n.nat?)).map fun i => { key := Int.ofNat i, attrs := [] },
+          edges := [], inters := if pr.isEmpty then [] else [("bonds", pr)] }
+      pure (m, ← (← net.list?).mapM interOf)
+  | _ => none
 
 def encUnit : UnitChoice → String
   | .molecule => "molecule"
@@ -206,12 +231,18 @@ def handle (_ : Unit) (toks : List Tok) : Unit × String :=
         let a : Atom := { (default : Atom) with oldResid := some (← ra.int?) }
         let b : Atom := { (default : Atom) with oldResid := some (← rb.int?) }
         pure (encBool (crit (.regions regs) a b))
-    | [Tok.str "cli", el, go, ff, ef, lo, up, a, pw, em, ermd, eb, eunit, probes] => do
+    | [Tok.str "cli", el, go, ff, ef, lo, up, a, pw, em, ermd, eb, eunit, sep, molname, probes] => do
         let args : CliArgs :=
           { elastic := ← boolOf el, go := ← boolOf go, toFF := (← ff.str?).toList, ef := ← optRatOf ef,
             el := ← optRatOf lo, eu := ← optRatOf up, ea := ← optRatOf a, ep := ← optRatOf pw, em := ← optRatOf em,
-            ermd := ← optCharsOf ermd, eb := ← optCharsOf eb, eunit := ← optCharsOf eunit }
-        pure (encCli (← ints? probes) (cliBuild args))
+            ermd := ← optCharsOf ermd, eb := ← optCharsOf eb, eunit := ← optCharsOf eunit,
+            sep := ← boolOf sep, molname := ← optCharsOf molname }
+        let evs := cliEvents args
+        pure (encCli (← ints? probes) (cliBuild args) ++
+          (if evs.isEmpty then "" else " then=" ++ ",".intercalate (evs.map encEvent)))
+    | [Tok.str "typesafter", dedup, mols] => do
+        let ms ← (← mols.list?).mapM molNetOf
+        pure (encList ((typesAfterNetwork (← boolOf dedup) (ms.map (·.1)) (ms.map (·.2))).map encNat))
     | [Tok.str "unit", s] => do pure (encUnit (parseUnit (← s.str?).toList))
     | [Tok.str "pyint", s] => do pure (encOptInt (pyInt (← s.str?).toList))
     | [Tok.str "render", rs] => do
